@@ -342,6 +342,12 @@ func (c *Catalog) AddResponseBody(
 		return d.KeywordError(fmt.Sprintf("%s for %q", jerr.ResponsesIsEmpty, httpID.String()))
 	}
 
+	if v.Responses[i].Body != nil {
+		// The second Body directive of the response, or the Body directive of a
+		// response which has its schema already: one of them would be lost.
+		return d.KeywordError(jerr.NotUniqueDirective)
+	}
+
 	httpResponseBody, je := NewHTTPResponseBody(schemaBytes, bodyFormat, sn, d, tt, rr, c.UserTypes)
 	if je != nil {
 		return je
